@@ -84,7 +84,8 @@ func (e *Engine) step(f *frame, it *item, ins ssa.Instruction) ([]branch, bool) 
 			return nil, false
 		}
 		if p.sym != nil {
-			e.unsupported("field address through symbolic index")
+			set(Ptr{obj: p.obj, path: p.path, sym: p.sym, post: append(append([]int(nil), p.post...), x.Field)})
+			break
 		}
 		np := append(append([]int(nil), p.path...), x.Field)
 		set(Ptr{obj: p.obj, path: np})
@@ -112,7 +113,12 @@ func (e *Engine) step(f *frame, it *item, ins ssa.Instruction) ([]branch, bool) 
 			if !e.require(f, it, Ult(idx, i64(int(n))), "index", "array index out of range", x.Pos()) {
 				return nil, false
 			}
-			if idx.op == OpConst {
+			if b.sym != nil {
+				if idx.op != OpConst {
+					e.unsupported("two symbolic indices in one address")
+				}
+				set(Ptr{obj: b.obj, path: b.path, sym: b.sym, post: append(append([]int(nil), b.post...), int(idx.val))})
+			} else if idx.op == OpConst {
 				set(Ptr{obj: b.obj, path: append(append([]int(nil), b.path...), int(idx.val))})
 			} else {
 				set(Ptr{obj: b.obj, path: b.path, sym: idx})
